@@ -10,7 +10,7 @@ CHECKS = {
  "C01": ("exploration", "lsv", "model-based stateful PBT: proptest histories vs a String reference model, all storage states, shrinking to a replay",
          "Generated operation histories over 6 handles are run against the real crate and a String per handle; every read-back and return value is compared after every step. Exploration, not proof: bounded histories (40 quick / 120 thorough ops).", "DESIGN.md §6 C01"),
  "C02": ("exploration", "lsv", "model-based stateful PBT, sharing-heavy generator; invariant: non-target handles keep raw bytes, pointer, length, text",
-         "Every step compares all handles that are not the operation's target before/after (raw 16 bytes, pointer, length, text vs model), in histories where buffers are shared, truncated while shared and later written in place.", "DESIGN.md §6 C02"),
+         "Every step compares all handles that are not the operation's target before/after (raw 16 bytes, pointer, length, text vs model), in histories where buffers are shared, truncated while shared and later written in place; also with every allocator request failing in turn, with callbacks and a simulated second thread dropping or cloning sibling handles in the middle of an operation, and with writes into borrowed static texts.", "DESIGN.md §6 C02"),
  "C03": ("exploration", "lsv", "model-based stateful PBT with a shadow heap (guard zones, quarantine, always-moving realloc) and a refcount-equals-live-handles invariant after every step",
          "The crate's own allocator calls go through a shadow heap: exact layout on free, no double free, no access outside live blocks (access notes), refcount == live handles per buffer after every step, no orphan block, empty heap at the end; incl. failing and panicking operations and a simulated second thread at the crate's allocator calls; run with engines built with and without debug assertions.", "DESIGN.md §6 C03"),
  "C04": ("exploration", "lsv-loom", "proptest-generated concurrent programs, each explored by loom over all schedules up to a preemption bound; buffer accesses mapped to loom cells through the hooks; per-thread sequential String model",
